@@ -401,6 +401,16 @@ def install_big(eng, reg):
             W -= 1
             hi = min(hi, 256 ** W - 1)
         e.big_bounds[id_of(xv)] = (lo, hi, xv)
+        choices = getattr(e, 'byteslen_choices', None)
+        if choices:
+            # case split on the byte length (the listed lengths are explored, the others are cut and reported as a bound)
+            Ls = [L for L in choices if L <= W]
+            L = Ls[e.choose(len(Ls), 'byteslen')]
+            e.assume(z3.And(xv < 256 ** L, xv >= (256 ** (L - 1) if L > 0 else 0)))
+            cells = [ByteOf(xv, W - L + j, W) for j in range(L)]
+            if L == 0:
+                return e.new_slice([])
+            return e.new_slice(cells)
         Lb = e.fresh_bv('blen', 64)
         cons = [z3.ULE(Lb, W)]
         for j in range(W + 1):
